@@ -120,20 +120,22 @@ Theorem C09_conversions_roundtrip :
 Proof. exact conversions_roundtrip. Qed.
 Print Assumptions C09_conversions_roundtrip.
 
-(* no conversion raises -- outside the finding's stratum (reciprocal -> direct on a
-   cell of volume > 1e8) *)
-Theorem C09_conversions_total_outside_finding :
+(* no conversion raises, for all nine pairs, on every lattice a Phase can hold *)
+Theorem C09_conversions_total :
   forall (A : mat3 R) (L : lattice R) (s1 s2 : space) (v : vec3 R),
-  lattice_of_base ROps A = Ok L -> (s1, s2) <> (Sr, Sd) \/ mdet ROps A <= 100000000 ->
-  exists w, transform_space ROps L s1 s2 v = Ok w.
+  lattice_of_base ROps A = Ok L -> exists w, transform_space ROps L s1 s2 v = Ok w.
 Proof. exact conversions_total. Qed.
-Print Assumptions C09_conversions_total_outside_finding.
+Print Assumptions C09_conversions_total.
 
-Theorem C09_conversions_total_refuted :
-  exists (A : mat3 R) (L : lattice R) (v : vec3 R),
-    lattice_of_base ROps A = Ok L /\ transform_space ROps L Sr Sd v = Err LatticeError.
-Proof. exact conversion_rd_refuted. Qed.
-Print Assumptions C09_conversions_total_refuted.
+(* ... including reciprocal -> direct on cells of volume > 1e8, where diffpy's
+   lattice.reciprocal() raises (the conversion used to go through it) *)
+Theorem C09_conversions_large_cell :
+  exists (A : mat3 R) (L : lattice R),
+    lattice_of_base ROps A = Ok L /\ 100000000 < mdet ROps A /\
+    l_rec_metrics L = Err LatticeError /\
+    forall v : vec3 R, transform_space ROps L Sr Sd v = Ok (vmat ROps v (rgram A)).
+Proof. exact conversion_rd_large_cell. Qed.
+Print Assumptions C09_conversions_large_cell.
 
 (* ================= zone law, duality, lengths ================= *)
 
@@ -158,11 +160,13 @@ Theorem C09_dual_bases_delta : forall i j : nat, (i < 3)%nat -> (j < 3)%nat ->
 Proof. exact e_dot. Qed.
 Print Assumptions C09_dual_bases_delta.
 
-(* |hkl B^T|^2 = hkl G* hkl^T with G* = lattice.reciprocal().metrics *)
-Theorem C09_reciprocal_length : forall (A : mat3 R) (L : lattice R) (hkl g : vec3 R) (Gs : mat3 R),
+(* |hkl B^T|^2 = hkl G* hkl^T, where hkl G* is the reciprocal -> direct conversion of hkl
+   (G* = recbase.T @ recbase); diffpy's lattice.reciprocal().metrics, when it can be
+   built, is the same G* *)
+Theorem C09_reciprocal_length : forall (A : mat3 R) (L : lattice R) (hkl g : vec3 R),
   lattice_of_base ROps A = Ok L -> transform_space ROps L Sr Sc hkl = Ok g ->
-  l_rec_metrics L = Ok Gs ->
-  vnorm2 ROps g = vdot ROps (vmat ROps hkl Gs) hkl.
+  (exists u, transform_space ROps L Sr Sd hkl = Ok u /\ vnorm2 ROps g = vdot ROps u hkl) /\
+  (forall Gs, l_rec_metrics L = Ok Gs -> vnorm2 ROps g = vdot ROps (vmat ROps hkl Gs) hkl).
 Proof. exact m_reciprocal_length. Qed.
 Print Assumptions C09_reciprocal_length.
 
@@ -192,20 +196,17 @@ Theorem C09_cross_perpendicular : forall u v : vec3 R,
 Proof. exact m_cross_perp. Qed.
 Print Assumptions C09_cross_perpendicular.
 
-(* Miller.cross outside the "xyz" format: result is x1 x x2, reported in the dual
-   space (direct <-> reciprocal, 3-index <-> 3-index, 4-index <-> 4-index) *)
-Theorem C09_cross_dual_format_outside_finding : forall (f1 f2 : fmt) (x1 x2 : vec3 R),
-  f1 <> Fxyz -> compatible f1 f2 = true ->
+(* Miller.cross of compatible vectors never raises, in any of the five formats: the result
+   is x1 x x2; 3-index stays 3-index and 4-index stays 4-index; lattice formats are reported
+   in the dual space (direct <-> reciprocal), the Cartesian format "xyz" stays "xyz" *)
+Theorem C09_cross_dual_format : forall (f1 f2 : fmt) (x1 x2 : vec3 R),
+  compatible f1 f2 = true ->
   exists f', cross ROps f1 x1 f2 x2 = Ok (f', vcross ROps x1 x2) /\
-             fmt_space f' <> fmt_space f1 /\ is4 f' = is4 f1 /\
+             (f1 <> Fxyz -> fmt_space f' <> fmt_space f1) /\ (f1 = Fxyz -> f' = Fxyz) /\
+             is4 f' = is4 f1 /\
              vdot ROps (vcross ROps x1 x2) x1 = 0 /\ vdot ROps (vcross ROps x1 x2) x2 = 0.
 Proof. exact cross_dual_format. Qed.
-Print Assumptions C09_cross_dual_format_outside_finding.
-
-Theorem C09_cross_dual_format_refuted :
-  exists x1 x2 : vec3 R, cross ROps Fxyz x1 Fxyz x2 = Err KeyError.
-Proof. exact cross_xyz_refuted. Qed.
-Print Assumptions C09_cross_dual_format_refuted.
+Print Assumptions C09_cross_dual_format.
 
 (* the indices of the product in the dual space:
    [u1] x [u2] = V (u1 x u2) as (hkl);   (h1) x (h2) = (h1 x h2)/V as [uvw] *)
